@@ -31,6 +31,21 @@ def step (s : St) (l : Line) : St × Verdict :=
     match req.toNat? with
     | some r => (s.put id (s.get id ++ [r]), .ok)
     | none => (s, .bad "issue args")
+  | "pfplant", [id, x] =>
+    -- relay traffic is accepted without an outstanding task, but it is not a way to make an id outstanding
+    match x.toNat?, (kv "tasks" l.impl).bind natCsv with
+    | some xv, some after =>
+      if after.count xv > (s.get id).count xv then
+        (s.put id after, .specFail "C05.tasks" s!"relay traffic of {id} carried request id {xv}; afterwards that id is on the record of outstanding ids ({showTasks after}) although no task with it was issued")
+      else (s.put id after, .ok)
+    | _, _ => (s, .bad s!"pfplant output {joinSp l.impl}")
+  | "handout", [id] =>
+    -- the tasks leave for the agent: they stay outstanding exactly as recorded (nothing retired, nothing recorded again)
+    match (kv "tasks" l.impl).bind natCsv with
+    | some after =>
+      if after == s.get id then (s, .ok)
+      else (s.put id after, .specFail "C05.tasks" s!"handing the queued tasks of {id} out changed the record of outstanding ids: {showTasks (s.get id)} -> {showTasks after}")
+    | none => (s, .bad s!"handout output {joinSp l.impl}")
   | "issuebof", [id, req] =>
     -- through TaskPrepare: the file chunks it queues carry request ids of their own, so the record is read back
     match req.toNat?, (kv "tasks" l.impl).bind natCsv with
